@@ -34,7 +34,7 @@ def binary(W, b, c):
     from qucumber.rbm import BinaryRBM
     nh, nv = W.shape
     m = _mk(BinaryRBM, {"num_visible": nv, "num_hidden": nh}, {"weights": W, "visible_bias": b, "hidden_bias": c})
-    object.__setattr__(m, "num_pars", None)
+    object.__setattr__(m, "num_pars", nv * nh + nv + nh)
     return m
 
 
@@ -42,7 +42,7 @@ def purification(W, U, b, c, d):
     from qucumber.rbm import PurificationRBM
     nh, nv = W.shape
     na = U.shape[0]
-    return _mk(PurificationRBM, {"num_visible": nv, "num_hidden": nh, "num_aux": na},
+    return _mk(PurificationRBM, {"num_visible": nv, "num_hidden": nh, "num_aux": na, "num_pars": nv * nh + nv * na + nv + nh + na},
                {"weights_W": W, "weights_U": U, "visible_bias": b, "hidden_bias": c, "aux_bias": d})
 
 
@@ -69,7 +69,7 @@ class _packed_vectors:
         def p2v(ts):
             ts = list(ts)
             if any(_is_g(t) for t in ts):
-                return tuple(ts)
+                return G.Packed(ts)
             return real(ts)
         self.module.parameters_to_vector = p2v
         return self
@@ -150,8 +150,8 @@ def cases(which):
             import qucumber.rbm.binary_rbm as mod
             with _packed_vectors(mod):
                 r = binary(W, b, c).effective_energy_gradient(v)
-            if isinstance(r, tuple):
-                return r
+            if isinstance(r, G.Packed):
+                return tuple(r.pieces)
             return _split(r, [W.shape, b.shape, c.shape])
 
         def grad_spec(W, b, c, v, batch=True):
@@ -252,8 +252,8 @@ def cases(which):
             import qucumber.rbm.purification_rbm as mod
             with _packed_vectors(mod):
                 r = purification(W, U, b, c, d).effective_energy_gradient(v)
-            if isinstance(r, tuple):
-                return r
+            if isinstance(r, G.Packed):
+                return tuple(r.pieces)
             return _split(r, [W.shape, U.shape, b.shape, c.shape, d.shape])
 
         def pgrad_spec(W, U, b, c, d, v):
@@ -320,6 +320,71 @@ def cases(which):
             return -(G.sum_over(nv, lambda i: v(*(bi + (i,))) * p["b"](i)) +
                      G.sum_over(nh, lambda j: G.fn("softplus", lin(p["W"], p["c"], v, bi, j))) +
                      G.sum_over(na, lambda a: G.fn("softplus", lin(p["U"], p["d"], v, bi, a))))
+    if which in ("batchgrad", "all"):
+        # ---- compute_batch_gradients without measurement bases (C06): positive phase minus negative phase, the Gibbs
+        # chain replaced by its contract (it returns some batch vk of the negative batch's shape) -------------------------
+        M = G.dim("M")
+
+        def sb_state(cls, **nets):
+            st = _state(cls, **nets)
+            if any(_is_g(getattr(n, k)) for n in nets.values() for k in ("visible_bias",)):
+                from qucumber.nn_states.neural_state import NeuralStateBase
+                from qv import astvc
+                vc = astvc.VC.cur()
+                ns = {}
+                for n in ("gradient", "positive_phase_gradients", "compute_batch_gradients"):
+                    ns[n] = astvc.load(vars(NeuralStateBase)[n], None, vc, None, cls=NeuralStateBase, name="NeuralStateBase." + n)[0]
+                st.__class__ = type("SB_" + cls.__name__, (cls,), ns)
+            return st
+
+        def bg_call(kind):
+            def call(v, neg, vk, **p):
+                import qucumber.rbm.binary_rbm as mb
+                import qucumber.rbm.purification_rbm as mp
+                from qucumber.nn_states import PositiveWaveFunction, ComplexWaveFunction, DensityMatrix
+                if kind == "positive":
+                    st = sb_state(PositiveWaveFunction, rbm_am=binary(p["W"], p["b"], p["c"]))
+                elif kind == "complex":
+                    st = sb_state(ComplexWaveFunction, rbm_am=binary(p["W"], p["b"], p["c"]), rbm_ph=binary(p["Wp"], p["bp"], p["cp"]))
+                else:
+                    st = sb_state(DensityMatrix, rbm_am=purification(p["W"], p["U"], p["b"], p["c"], p["d"]),
+                                  rbm_ph=purification(p["Wp"], p["Up"], p["bp"], p["cp"], p["dp"]))
+                object.__setattr__(st.rbm_am, "gibbs_steps", lambda k, x, overwrite=False: vk)      # contract of the chain: some batch
+                with _packed_vectors(mb), _packed_vectors(mp):
+                    g = st.compute_batch_gradients(3, v, neg)
+                out = []
+                shapes_am = [p[k].shape for k in (("W", "b", "c") if kind != "mixed" else ("W", "U", "b", "c", "d"))]
+                out += list(g[0].pieces) if isinstance(g[0], G.Packed) else list(_split(g[0], shapes_am))
+                if len(g) > 1:
+                    out.append(g[1])
+                return tuple(out)
+            return call
+
+        def bg_spec(kind):
+            def spec(v, neg, vk, **p):
+                sg = lambda Wm, cm, x, s, j: G.fn("sigmoid", lin(Wm, cm, x, (s,), j))      # noqa: E731
+                invB = G.fn("inv", G.to_E(G.size_obj(B)))
+                invM = G.fn("inv", G.to_E(G.size_obj(M)))
+                W, b, c = p["W"], p["b"], p["c"]
+                pieces = [G.build((nh, nv), lambda j, i: -G.sum_over(B, lambda s: sg(W, c, v, s, j) * v(s, i)) * invB + G.sum_over(M, lambda s: sg(W, c, vk, s, j) * vk(s, i)) * invM)]
+                if kind == "mixed":
+                    U, d_ = p["U"], p["d"]
+                    pieces.append(G.build((na, nv), lambda q, i: -G.sum_over(B, lambda s: sg(U, d_, v, s, q) * v(s, i)) * invB + G.sum_over(M, lambda s: sg(U, d_, vk, s, q) * vk(s, i)) * invM))
+                pieces.append(G.build((nv,), lambda i: -G.sum_over(B, lambda s: v(s, i)) * invB + G.sum_over(M, lambda s: vk(s, i)) * invM))
+                pieces.append(G.build((nh,), lambda j: -G.sum_over(B, lambda s: sg(W, c, v, s, j)) * invB + G.sum_over(M, lambda s: sg(W, c, vk, s, j)) * invM))
+                if kind == "mixed":
+                    pieces.append(G.build((na,), lambda q: -G.sum_over(B, lambda s: sg(U, d_, v, s, q)) * invB + G.sum_over(M, lambda s: sg(U, d_, vk, s, q)) * invM))
+                if kind != "positive":
+                    npar = G.to_dim(nv * 0 + (G.size_obj(nv) * G.size_obj(nh) + G.size_obj(nv) + G.size_obj(nh) if kind == "complex" else
+                                                 G.size_obj(nv) * G.size_obj(nh) + G.size_obj(nv) * G.size_obj(na) + G.size_obj(nv) + G.size_obj(nh) + G.size_obj(na))) if False else None
+                    pieces.append("zeros")
+                return tuple(pieces)
+            return spec
+        DATA = [("v", (B, nv), "bits"), ("neg", (M, nv), "bits"), ("vk", (M, nv), "bits")]
+        add("compute_batch_gradients[positive wavefunction, no bases]", P_BIN + DATA, bg_call("positive"), bg_spec("positive"))
+        add("compute_batch_gradients[complex wavefunction, no bases]", P_BIN + P_PH + DATA, bg_call("complex"), bg_spec("complex"))
+        add("compute_batch_gradients[density matrix, no bases]", P_PUR + P_PURPH + DATA, bg_call("mixed"), bg_spec("mixed"))
+
     if which in ("observables", "all"):
         # ---- diagonal observables (C08): SigmaZ for every chain length and batch size -------------------------------------
         from qucumber.observables import SigmaZ
